@@ -21,6 +21,7 @@ import re
 import shutil
 import tempfile
 import types
+import zlib
 
 from .common import paths, tables as T
 from .common.runner import Check, canon
@@ -292,7 +293,7 @@ PEN_RESERVED = ("instance", "lnk", "carg", "type")
 def penman_safe(e):
     """strings PENMAN notation can carry unquoted, roles/properties EDS-PENMAN can tell apart"""
     for n in e.nodes:
-        if not (PEN_SAFE.fullmatch(n.id) and n.id[0].isalpha() or (n.id and n.id[0] == "_" and PEN_SAFE.fullmatch(n.id))):
+        if not PEN_SAFE.fullmatch(n.id):       # any symbol is a PENMAN variable: also "1", "-1", "10000", "ARG1"
             return False
         if not PEN_SAFE.fullmatch(n.predicate):
             return False
@@ -310,12 +311,19 @@ def penman_safe(e):
                 return False
         if n.carg is not None and not line_safe(n.carg):
             return False
-    ids = {n.id for n in e.nodes}
-    for n in e.nodes:   # a property value / type / predicate that is also a variable would be read as a reentrancy
-        vals = list(n.properties.values()) + ([n.type] if n.type is not None else []) + [n.predicate]
-        if any(v in ids for v in vals):
-            return False
     return True
+
+
+# F40 (known): EDS-PENMAN loses a node or its predicate when a predicate string equals a node identifier (penman writes
+# that :instance triple as an inverted edge).  Such graphs are generated (collision dimension, deterministic case c8,
+# corpus witness), judged by the PENMAN oracle and recognised by classify().
+PRED_ID_COLLISION_IN_ORACLE = True
+
+
+def pred_id_collision(e):
+    """some predicate string is also a node identifier of the graph"""
+    ids = {n.id for n in e.nodes}
+    return any(n.predicate in ids for n in e.nodes)
 
 
 # --------------------------------------------------------------------------- observations
@@ -500,7 +508,69 @@ def gen_eds(rng, odd=False, maxn=7, ascii_only=False):
         top = rng.choice(ids)
     else:
         top = "zz9"
-    return je(top, nodes, rng.choice(IDENTS))
+    g = je(top, nodes, rng.choice(IDENTS))
+    if n and not ascii_only and rng.random() < (0.3 if not odd else 0.15):
+        g = collide(rng, g)
+    return g
+
+
+NUMERIC_IDS = ["0", "1", "2", "3", "10", "10000", "-1", "+", "-"]
+
+
+def collide(rng, g):
+    """the collision dimension: node identifiers that equal other strings of the same graph (property values, constants,
+    type letters, predicates, role names, `top`), numeric identifiers, identifiers differing only in case — and the
+    other way round (property values / constants equal to node identifiers, a constant equal to the top)."""
+    nodes = g["nodes"]
+    old = [uncps(n["id"]) for n in nodes]
+    pool = list(NUMERIC_IDS) + ["top", "instance", "type", "lnk", "carg", "ARG1", "BV", "u", "x", "e"]
+    for n in nodes:
+        pool += [uncps(v) for _, v in n["props"]] + [uncps(k) for k, _ in n["edges"]]
+        if n["type"] is not None:
+            pool.append(uncps(n["type"]))
+        if n["carg"] is not None and is_symbol(uncps(n["carg"])):
+            pool.append(uncps(n["carg"]))
+        if rng.random() < 0.25:
+            pool.append(uncps(n["pred"]))
+    pool += [x.upper() for x in old if x.upper() != x] + [x.capitalize() for x in old if x.capitalize() != x]
+    pool = [x for x in pool if is_symbol(x)]
+    ren = {}
+    used = set()
+    for x in old:
+        if x in ren:
+            continue
+        y = rng.choice(pool) if (pool and rng.random() < 0.7) else x
+        if y in used or (y in old and y != x):
+            y = x
+        if y in used:
+            continue
+        ren[x] = y
+        used.add(y)
+    ren = {x: ren.get(x, x) for x in old}
+    if len(set(ren.values())) != len(set(old)):
+        ren = {x: x for x in old}
+    for n in nodes:
+        n["id"] = cps(ren[uncps(n["id"])])
+        n["edges"] = [[k, cps(ren.get(uncps(v), uncps(v)))] for k, v in n["edges"]]
+    ids = [uncps(n["id"]) for n in nodes]
+    top = uncps(g["top"])
+    if top is not None:
+        g["top"] = cps(ren.get(top, top))
+    # the other way round
+    for n in nodes:
+        if n["props"] and rng.random() < 0.5:
+            i = rng.randrange(len(n["props"]))
+            v = rng.choice(ids)
+            if v == v.lower():
+                n["props"][i][1] = cps(v)
+        r = rng.random()
+        if r < 0.2:
+            n["carg"] = cps(rng.choice(ids))
+        elif r < 0.3 and g["top"] is not None:
+            n["carg"] = g["top"]
+        if rng.random() < 0.15:
+            n["type"] = cps(rng.choice(ids))
+    return g
 
 
 def all_opts():
@@ -696,7 +766,22 @@ def fixed_cases():
     g12 = je("e2", [jn("e2", "p", "e", [("BODY", "e2"), ("LBL", "e2"), ("ARG1", "e2"), ("CARG", "e2"), ("ARG", "e2")])])
     g13 = je("a", [jn("a", "p", "x", [("ARG1", "b")], [], ""), jn("b", "q", "e", [], [], None, {"k": "t", "d": [1, 2]}),
                    jn("c", "r", "u", [("ARG1", "a")], [], None, {"k": "e", "d": [7]})])
-    for g in (g1, g2, g3, g4, g5, g6, g7, g8, g9, g10, g11, g12, g13):
+    # collisions: identifiers equal to property values / constants / types / role names / `top`, numeric identifiers,
+    # identifiers differing only in case
+    c1 = je("1", [jn("1", "pron", "x", [("ARG1", "2"), ("ARG2", "3")], [("PERS", "3"), ("NUM", "sg")]),
+                  jn("2", "named", "x", [], [("PERS", "1")], "3"), jn("3", "_dog_n_1", "x", [("BV", "1")], [("IND", "+")])])
+    c2 = je("top", [jn("top", "p", "e", [("ARG1", "ARG1"), ("BV", "x")]), jn("ARG1", "q", "x", [], [("TENSE", "past")], "top"),
+                    jn("x", "r", "x", [], [("PERS", "x")])])
+    c3 = je("0", [jn("0", "p", "e", [("ARG1", "-1"), ("ARG2", "10000")], [("PERS", "0")]), jn("-1", "q", "x", [], [], "-1"),
+                  jn("10000", "r", "x", [], [("NUM", "10000")])])
+    c4 = je("x1", [jn("x1", "p", "x", [("ARG1", "X1")], [("PERS", "3")]), jn("X1", "q", "x", [("ARG1", "x1")])])
+    c5 = je("e", [jn("e", "p", "x", [("ARG1", "x")], [("PERS", "x")], "x"), jn("x", "q", "e", [], [("NUM", "e")], "e")])
+    c6 = je("past", [jn("past", "p", "e", [("ARG1", "sg")], [("TENSE", "past"), ("NUM", "sg")]),
+                     jn("sg", "q", "x", [("ARG1", "3")], [("PERS", "3")]), jn("3", "r", "u", [], [], "past")])
+    c7 = je("instance", [jn("instance", "p", "type", [("ARG1", "type"), ("ARG2", "lnk")]), jn("type", "q", "x", [], [], "carg"),
+                         jn("lnk", "r", "x", [("ARG1", "carg")]), jn("carg", "s", "x")])
+    c8 = je("a", [jn("a", "a", "x"), jn("b", "a", "x", [("ARG2", "a")])])      # predicate = identifier (F40 shape)
+    for g in (g1, g2, g3, g4, g5, g6, g7, g8, g9, g10, g11, g12, g13, c1, c2, c3, c4, c5, c6, c7, c8):
         for o in all_opts():
             out.append({"kind": "native", "eds": g, "opts": o})
         for p, l, i in itertools.product([True, False], repeat=3):
@@ -875,14 +960,17 @@ def pin_lines():
 
 class C03(Check):
     pid = "C03"
-    quick_cases = 4000
+    quick_cases = 3000
     thorough_cases = 30000
     rule = ("distinct (graph, options) cases with at least one node; counted per codec and option vector")
     assumptions = [
         "the regex lexer of the native codec is not modelled: the model's token view of the encoder output is compared "
         "with what the real lexer returns on the real text, and the real lexer's tokens of damaged texts are fed to the "
         "model's parser",
-        "json and penman libraries are identity parameters of the model (the oracle goes through their real text)",
+        "json and penman libraries are identity parameters of the model (the oracle goes through their real text); for "
+        "penman the identity FAILS when a predicate string equals a node identifier (known finding F40: the :instance "
+        "triple is rewritten as an inverted edge) — the model, stated on triples, cannot exhibit this loss; the PENMAN "
+        "theorem is a statement about to_triples/from_triples only, the oracle and classify() carry F40",
         "str.upper/lower/islower are modelled for ASCII; generators keep cased characters ASCII",
     ]
     trusted_base = ["harness/c03.py generators, canonicalisation and oracle", "json, penman libraries (parameters)"]
@@ -1164,7 +1252,10 @@ class C03(Check):
         elif k == "json":
             self._oracle_json(case, fail)
         elif k == "penman":
-            self._oracle_penman(case, fail)
+            try:
+                self._oracle_penman(case, fail)
+            except Exception as ex:   # noqa: BLE001  (a decoded graph with a missing predicate cannot be re-encoded)
+                fail("penman: a step of the round trip raises on the decoded graph", type(ex).__name__)
         elif k == "longtext":
             self._oracle_longtext(case, fail)
         elif k == "churn":
@@ -1419,7 +1510,7 @@ class C03(Check):
                 fail("native: list API differs from single API", repr(s))
         except Exception as ex:   # noqa: BLE001
             fail("native: list API cannot read its own output", "%s: %r" % (type(ex).__name__, s))
-        if len(e.nodes) <= 12:
+        if len(e.nodes) <= 12 and zlib.crc32(canon(case).encode()) % 2 == 0:     # every other case (by content)
             pk = dict(properties=o["properties"], lnk=o["lnk"], show_status=o["show_status"])
             fo = dict(o, properties=not o["properties"], lnk=not o["lnk"])
             self._purity("native", edsnative, e, pk, fail, lambda d0: True, flip_ok=self._in_scope(e, fo),
@@ -1525,7 +1616,8 @@ class C03(Check):
     @staticmethod
     def _pen_scope(e):
         return bool(ids_distinct(e) and targets_ok(e) and penman_safe(e) and types_in_scope(e)
-                    and all(lexable_lnk(n.lnk) for n in e.nodes))
+                    and all(lexable_lnk(n.lnk) for n in e.nodes)
+                    and (PRED_ID_COLLISION_IN_ORACLE or not pred_id_collision(e)))
 
     def _oracle_penman(self, case, fail):
         e = eds_of_j(case["eds"])
@@ -1544,7 +1636,7 @@ class C03(Check):
         if d.top != e.top:
             fail("penman: top not preserved", repr((e.top, d.top, s)))
         want_ids = sorted(n.id for n in e.nodes if n.id in reach)
-        if sorted(n.id for n in d.nodes) != want_ids:
+        if sorted(str(n.id) for n in d.nodes) != want_ids:
             fail("penman: decoded nodes are not the nodes connected to the top", repr((want_ids, [n.id for n in d.nodes], s)))
             return
         by = {n.id: n for n in d.nodes}
@@ -1569,7 +1661,7 @@ class C03(Check):
         # side oracle for the identity parameter: penman keeps the triples the model is stated over
         tr = edspenman.to_triples(e, properties=p, lnk=l)
         back = penman.decode(penman.encode(penman.Graph(tr))).triples
-        if sorted(map(tuple, back)) != sorted(map(tuple, tr)):
+        if sorted(map(tuple, back), key=repr) != sorted(map(tuple, tr), key=repr):
             fail("penman library does not keep the triples (identity parameter of the model)", repr((tr, back)))
         # native re-encoding of the PENMAN-decoded graph, node order put back
         if all(n.id in reach for n in e.nodes):
@@ -1583,6 +1675,19 @@ class C03(Check):
 
     # ---- known findings
     def classify(self, case, failure):
+        # F40: EDS-PENMAN, a predicate string that is also a node identifier of the graph, AND the penman library
+        # demonstrably does not give back the triples the codec handed it for this graph (the :instance triple with a
+        # variable target is what it rewrites) — any other PENMAN loss, also on such a graph, stays a violation
+        if case.get("kind") == "penman" and str(failure.get("clause", "")).startswith("penman"):
+            e = eds_of_j(case["eds"])
+            if pred_id_collision(e) and targets_ok(e):
+                tr = edspenman.to_triples(e, properties=case["properties"], lnk=case["lnk"])
+                try:
+                    back = penman.decode(penman.encode(penman.Graph(tr))).triples
+                except Exception:   # noqa: BLE001
+                    back = None
+                if back is None or sorted(map(tuple, back), key=repr) != sorted(map(tuple, tr), key=repr):
+                    return "F40"
         # F38: native EDS prints the placeholder type 'u' for an untyped node that has properties
         if case.get("kind") == "native" and failure.get("clause") == "native: node type not preserved":
             d = failure.get("detail")
